@@ -66,6 +66,27 @@ def replay(p):
             b = float(new_mw)
             bad = any(eff[i] > b * (1 + 1e-12) for i in kept) or any(e > b * (1 + 1e-12) for e in eff)
             return {"reproduced": bool(bad), "bound": b, "weights": eff.tolist(), "kept": kept}
+        if kind == "hist":
+            from tf_pwa.histogram import Hist1D
+
+            n = 3
+            mm = np.array([g("m%d" % i, 0.5 + i) for i in range(n)])
+            ww = np.array([g("w%d" % i, 1.0) for i in range(n)])
+            edges = np.array([0.0, 1.0, 2.0, 3.0])
+            me = float(p.get("mask_error", 0.0))
+            h = Hist1D.histogram(mm, edges, weights=ww, mask_error=me)
+            # independent per-bin accumulation (np.histogram convention: last bin closed)
+            idx = np.minimum(np.searchsorted(edges, mm, side="right") - 1, len(edges) - 2)
+            cnt = np.zeros(3)
+            c2 = np.zeros(3)
+            npop = np.zeros(3)
+            np.add.at(cnt, idx, ww)
+            np.add.at(c2, idx, ww**2)
+            np.add.at(npop, idx, 1)
+            exp_err = np.where(npop == 0, me, np.sqrt(c2))
+            err = max(float(np.max(np.abs(np.asarray(h.count, dtype=float) - cnt))), float(np.max(np.abs(np.asarray(h.error, dtype=float) - exp_err))))
+            return {"reproduced": bool(err > 1e-9 or err != err), "error_magnitude": err, "count": np.asarray(h.count, dtype=float).tolist(), "error": np.asarray(h.error, dtype=float).tolist(),
+                    "expected_error": exp_err.tolist(), "m": mm.tolist(), "w": ww.tolist()}
     except Exception as e:
         return {"reproduced": False, "error": "%s: %s" % (type(e).__name__, str(e)[:300])}
     return {"reproduced": False, "error": "no replay for kind %s" % kind}
